@@ -931,6 +931,37 @@ def disp7(ctx) -> List[Ob]:
             out.append(bad("DISP-7", re_.qualname, key, ctx.where(re_, got[0]), f"edges of {attr} are drawn {'dashed' if got[2] else 'solid'}; expected {'dashed' if want_dashed else 'solid'}"))
         else:
             out.append(ok("DISP-7", re_.qualname, key, ctx.where(re_, got[0]), f"{'dashed' if want_dashed else 'solid'} edge per element of {attr}"))
+    # an exception handler that swallows (continue / pass) covers one lookup, never a loop that draws: the first
+    # element that raises would take all the remaining ones with it
+    rmod = prog.module("rendering")
+    n_try = 0
+    for fn in prog.functions:
+        if fn.module is not rmod:
+            continue
+        for t_ in A.walk_no_nested(fn.node):
+            if not isinstance(t_, ast.Try):
+                continue
+            swallow = [h for h in t_.handlers if not any(isinstance(x, ast.Raise) for b_ in h.body for x in ast.walk(b_))]
+            if not swallow:
+                continue
+            n_try += 1
+            loops = [x for b_ in t_.body for x in ast.walk(b_) if isinstance(x, (ast.For, ast.While))]
+            draws = [x for lp in loops for x in ast.walk(lp) if isinstance(x, ast.Call) and isinstance(x.func, ast.Attribute) and x.func.attr in ("edge", "node", "subgraph", "render_block", "render_edges")]
+            key = "swallowing handler covers a single lookup: " + A.alpha_key(t_.body[0])[:60]
+            if draws:
+                out.append(bad("DISP-7", fn.qualname, key, ctx.where(fn, t_), f"the try block whose '{A.unparse(swallow[0].type)[:30] if swallow[0].type is not None else 'bare'}' handler goes on silently contains a loop that draws ({A.unparse(draws[0])[:40]}): the first element that raises (a target outside the graph that is drawn) drops every remaining edge of the block"))
+            else:
+                out.append(ok("DISP-7", fn.qualname, key, ctx.where(fn, t_), "the protected block draws nothing in a loop", nontrivial=False))
+    # str.strip / lstrip / rstrip take a *set of characters*: a multi-character argument on label text removes
+    # letters of the payload ('return total' -> 'return tota')
+    for fn in prog.functions:
+        if fn.module is not rmod:
+            continue
+        for c_ in A.walk_no_nested(fn.node):
+            if isinstance(c_, ast.Call) and isinstance(c_.func, ast.Attribute) and c_.func.attr in ("strip", "lstrip", "rstrip") and len(c_.args) == 1 and isinstance(c_.args[0], ast.Constant) and isinstance(c_.args[0].value, str):
+                chars = c_.args[0].value
+                if len(chars) > 1 and any(ch.isalnum() for ch in chars):
+                    out.append(bad("DISP-7", fn.qualname, "label text stripped by a character set: " + A.alpha_key(c_)[:50], ctx.where(fn, c_), f"{A.unparse(c_)[:60]} removes any of the characters {sorted(set(chars))} from the end(s), not the string {chars!r}: a label whose text ends in one of these letters is shown truncated"))
     return out
 
 
